@@ -24,6 +24,7 @@ type fnInfo struct {
 // EntrySpec configures one harness entry.
 type EntrySpec struct {
 	Name        string            `json:"name"`
+	Ref         string            `json:"ref"` // take this entry's definition from harness/<ref>.json
 	Pkg         string            `json:"pkg"`
 	Bounds      map[string]int    `json:"bounds"`
 	Thorough    map[string]int    `json:"thorough"`
